@@ -137,6 +137,35 @@ def cudd_env(L):
     e['Cudd_IsComplement'] = lambda a: not (a >> ((1 << N) - 1)) & 1
     e['Cudd_Regular'] = lambda a: a if (a >> ((1 << N) - 1)) & 1 \
         else ~a & F
+    e['Cudd_bddIthVar'] = lambda m, j: tt.var(N, j)
+
+    def _cofactor(m, f, c):
+        # c is a cube (product of literals)
+        vals = {}
+        for j in sup(c):
+            vals[j] = 1 if tt.cof(c, N, j, 1) != 0 else 0
+        return L.result(tt.cofactor(f, N, vals))
+    e['Cudd_Cofactor'] = _cofactor
+    e['Cudd_bddCompose'] = lambda m, f, g, j: L.result(
+        tt.compose(f, N, {j: g}))
+    e['Cudd_bddVectorCompose'] = lambda m, f, x: L.result(
+        tt.compose(f, N, {j: x[j] for j in range(N)}))
+
+    def _swapvars(m, u, x, y, n):
+        ren = {}
+        for i in range(n):
+            (jx,), (jy,) = sorted(sup(x[i])), sorted(sup(y[i]))
+            ren[jx] = jy
+            ren[jy] = jx
+        return L.result(tt.rename(u, N, ren))
+    e['Cudd_bddSwapVariables'] = _swapvars
+    e['cuddUniqueInter'] = lambda m, j, hi, lo: L.result(
+        tt.ite(tt.var(N, j), hi, lo, N))
+    e['PyMem_Malloc'] = lambda k: [None] * k
+    e['PyMem_Free'] = lambda v: None
+    e['sizeof'] = lambda t: 1
+    e['DdRef'] = object
+    e['python_bool'] = bool
     e['Cudd_bddAnd'] = lambda m, a, b: L.result(a & b)
     e['Cudd_bddOr'] = lambda m, a, b: L.result(a | b)
     e['Cudd_bddXor'] = lambda m, a, b: L.result(a ^ b)
@@ -316,7 +345,41 @@ class Model:
             else:
                 env['_OPERATOR_SYMBOLS'] = set(
                     re.findall(r"'([^']+)'", m.group(1)))
-        for m in ['apply', 'incref', 'decref', '_incref', '_decref']:
+        import logging as _logging
+        env['logger'] = _logging.getLogger('harness.pyxmodel')
+        env['logger'].setLevel(_logging.CRITICAL)
+        Manager.vars = set(NAMES)
+        Manager._index_of_var = {x: j for j, x in enumerate(NAMES)}
+        Manager._var_with_index = {j: x for j, x in enumerate(NAMES)}
+        Manager._number_of_cudd_vars = lambda self_: N
+        Manager.level_of_var = lambda self_, x: NAMES.index(x)
+
+        def _mock_cube(self_, dvars):
+            if not isinstance(dvars, dict):
+                dvars = {x: True for x in dvars}
+            t = F
+            for x, v in dvars.items():
+                xv = tt.var(N, NAMES.index(x))
+                t &= xv if v else (~xv & F)
+            return model.wrap(self_, t)
+        Manager.cube = _mock_cube
+        extra = []
+        if name == 'cudd':
+            extra = ['ite', 'quantify', 'forall', 'exist', '_cofactor',
+                     '_compose', '_unary_compose', '_multi_compose',
+                     '_rename', '_swap', 'var', 'let']
+        for m in ['apply', 'incref', 'decref', '_incref', '_decref'] + extra:
+            if m in extra:
+                try:
+                    src = transliterate_c(extract(self.lines, m, blo, bhi))
+                    exec(compile('from __future__ import annotations\n' +
+                                 src, f'<{name}.{m}>', 'exec'), env)
+                    setattr(Manager, m, env[m])
+                    self.sources[f'{mgr_cls}.{m}'] = src
+                    self.reached.append(f'{mgr_cls}.{m}')
+                except (NotReached, SyntaxError) as e:
+                    self.not_reached.append(f'{mgr_cls}.{m}: {e}')
+                continue
             try:
                 fn, src = compile_method(self.lines, m, env, blo, bhi)
                 setattr(Manager, m, fn)
@@ -375,7 +438,11 @@ def transliterate_c(block):
             elif re.match(r'^.*\)\s*(->[^:]*)?:\s*$', l):
                 in_sig = False
         elif re.match(r'^\s*cdef\s', l):
-            continue
+            m = re.match(
+                r'^(\s*)cdef\s+[\w\.]+\s*\**\s*(\w+)\s*=\s*(.*)$', l)
+            if not m:
+                continue
+            l = f'{m.group(1)}{m.group(2)} = {m.group(3)}'
         l = CAST_RE.sub('', l)
         l = re.sub(r'\bNULL\b', 'None', l)
         out.append(l)
